@@ -54,6 +54,7 @@ type capInformer struct {
 	cache.SharedIndexInformer
 	mu       sync.Mutex
 	handlers []cache.ResourceEventHandler
+	lists    int64 // list calls served through the listers (see orderedIndexer)
 }
 
 func (c *capInformer) AddEventHandler(h cache.ResourceEventHandler) (cache.ResourceEventHandlerRegistration, error) {
@@ -63,30 +64,63 @@ func (c *capInformer) AddEventHandler(h cache.ResourceEventHandler) (cache.Resou
 	return c.SharedIndexInformer.AddEventHandler(h)
 }
 
+// orderedIndexer makes the order in which the listers hand out cached objects a reproducible schedule
+// decision instead of Go's map iteration order: results are sorted by key and rotated by the number of
+// list calls made so far in the scenario (the controller must not depend on the order; twins and replays
+// of a scenario see the same one).
+type orderedIndexer struct {
+	cache.Indexer
+	n *int64
+}
+
+func (o orderedIndexer) order(l []interface{}) []interface{} {
+	sort.SliceStable(l, func(i, j int) bool {
+		a, _ := cache.MetaNamespaceKeyFunc(l[i])
+		b, _ := cache.MetaNamespaceKeyFunc(l[j])
+		return a < b
+	})
+	if len(l) > 1 {
+		k := int(atomic.AddInt64(o.n, 1) % int64(len(l)))
+		l = append(append([]interface{}{}, l[k:]...), l[:k]...)
+	}
+	return l
+}
+func (o orderedIndexer) List() []interface{} { return o.order(o.Indexer.List()) }
+func (o orderedIndexer) ByIndex(name, key string) ([]interface{}, error) {
+	l, err := o.Indexer.ByIndex(name, key)
+	return o.order(l), err
+}
+func (o orderedIndexer) Index(name string, obj interface{}) ([]interface{}, error) {
+	l, err := o.Indexer.Index(name, obj)
+	return o.order(l), err
+}
+
+func (c *capInformer) ordered() cache.Indexer { return orderedIndexer{c.GetIndexer(), &c.lists} }
+
 type podInf struct{ c *capInformer }
 
 func (p podInf) Informer() cache.SharedIndexInformer { return p.c }
-func (p podInf) Lister() corelisters.PodLister       { return corelisters.NewPodLister(p.c.GetIndexer()) }
+func (p podInf) Lister() corelisters.PodLister       { return corelisters.NewPodLister(p.c.ordered()) }
 
 type pvcInf struct{ c *capInformer }
 
 func (p pvcInf) Informer() cache.SharedIndexInformer { return p.c }
 func (p pvcInf) Lister() corelisters.PersistentVolumeClaimLister {
-	return corelisters.NewPersistentVolumeClaimLister(p.c.GetIndexer())
+	return corelisters.NewPersistentVolumeClaimLister(p.c.ordered())
 }
 
 type revInf struct{ c *capInformer }
 
 func (p revInf) Informer() cache.SharedIndexInformer { return p.c }
 func (p revInf) Lister() appslisters.ControllerRevisionLister {
-	return appslisters.NewControllerRevisionLister(p.c.GetIndexer())
+	return appslisters.NewControllerRevisionLister(p.c.ordered())
 }
 
 type setInf struct{ c *capInformer }
 
 func (p setInf) Informer() cache.SharedIndexInformer { return p.c }
 func (p setInf) Lister() pclisters.StatefulSetLister {
-	return pclisters.NewStatefulSetLister(p.c.GetIndexer())
+	return pclisters.NewStatefulSetLister(p.c.ordered())
 }
 
 var (
@@ -118,11 +152,13 @@ type World struct {
 	LiveQ    *CountingQueue
 	// CatchUp: when set, the set and claim caches catch up (pending events are delivered)
 	// right after a controller call on that resource failed, i.e. while the reconcile is
-	// still running - what a live informer does. Pod events are never delivered
-	// mid-reconcile so that the recorded snapshot stays the one the reconcile listed.
+	// still running - what a live informer does. Pod and revision events are delivered
+	// mid-reconcile only after a failed *write* on that kind (the reconcile has listed them by then,
+	// so the recorded snapshot stays the one it saw; the conflict-retry loops re-read the listers).
 	CatchUp         bool
 	CatchUpOneByOne bool
 	midCopies       []cacheCopy
+	unreadyN        int // kubelet "unready" transitions so far in this scenario
 }
 
 func (w *World) afterCall(c *simapi.Call) {
@@ -131,7 +167,7 @@ func (w *World) afterCall(c *simapi.Call) {
 	}
 	// a failed pod write comes after the reconcile listed its pods, so the pod cache may catch up too
 	// (the status updater / pod control re-read the listers in their conflict-retry loops)
-	if c.Res == simapi.Sets || c.Res == simapi.PVCs || (c.Res == simapi.Pods && c.IsWrite()) {
+	if c.Res == simapi.Sets || c.Res == simapi.PVCs || ((c.Res == simapi.Pods || c.Res == simapi.Revisions) && c.IsWrite()) {
 		// one event per failed call: successive retries of the same write see successive cache states
 		// (e.g. a deletion first, the re-creation one attempt later)
 		n := -1
@@ -234,6 +270,10 @@ func (w *World) reset(rebuild bool) {
 		w.Ctl.VerifSetQueue(w.Q)
 	}
 	w.recN = 0
+	w.unreadyN = 0
+	for _, r := range cachedRes {
+		atomic.StoreInt64(&w.inf[r].lists, 0)
+	}
 	w.CatchUp = false
 	w.CatchUpOneByOne = false
 }
@@ -419,6 +459,9 @@ type Record struct {
 	CacheMutations []string
 	ViaWorker      bool
 	QOps           []QOp
+	// RevCacheFresh: the ControllerRevision cache held exactly the API's revisions (same names and
+	// resourceVersions) when the reconcile started.
+	RevCacheFresh bool
 }
 
 func (r *Record) Writes() []*simapi.Call {
@@ -498,6 +541,24 @@ func (w *World) run(key string, viaWorker bool) (rec *Record) {
 	}
 	_ = name
 	rec.Before = w.Srv.Snap()
+	cachedRevs := map[string]string{}
+	for _, c := range copies {
+		if c.res == simapi.Revisions {
+			if m, err := meta.Accessor(c.cp); err == nil {
+				cachedRevs[c.key] = m.GetResourceVersion()
+			}
+		}
+	}
+	rec.RevCacheFresh = true
+	apiRevs := rec.Before.List(simapi.Revisions, "")
+	if len(apiRevs) != len(cachedRevs) {
+		rec.RevCacheFresh = false
+	}
+	for _, o := range apiRevs {
+		if m, err := meta.Accessor(o); err != nil || cachedRevs[m.GetNamespace()+"/"+m.GetName()] != m.GetResourceVersion() {
+			rec.RevCacheFresh = false
+		}
+	}
 	from := w.Srv.LogLen()
 	qfrom := 0
 	if w.Q != nil {
